@@ -23,6 +23,8 @@ pub struct XCol {
 #[derive(Clone, Debug)]
 pub struct XSpec {
     pub cols: Vec<XCol>,
+    /// generate no null at any nesting level
+    pub no_nulls: bool,
 }
 
 fn unit(rng: &mut Rng) -> TimeUnit {
@@ -118,7 +120,10 @@ pub fn random_type(rng: &mut Rng, depth: u32) -> DataType {
                 ])
                 .clone()
             } else {
-                random_type(rng, depth - 1)
+                // fixed-width children only: the writer also accepts FSL<utf8>, FSL<null>,
+                // FSL<list<..>> ... which no reader version can decode (todo!() / unreachable!()
+                // in lance-encoding decoder.rs) -- recorded in NOTES.md, kept out of the pool
+                fsl_child(rng, depth - 1)
             };
             let k = *rng.pick(&[1, 2, 3, 4, 8, 17]);
             DataType::FixedSizeList(child_field(rng, "item", c), k)
@@ -157,6 +162,20 @@ pub fn random_type(rng: &mut Rng, depth: u32) -> DataType {
                 ])
                 .clone();
             DataType::Dictionary(Box::new(k), Box::new(v))
+        }
+    }
+}
+
+fn fsl_child(rng: &mut Rng, depth: u32) -> DataType {
+    if depth > 0 && rng.chance(1, 3) {
+        let c = fsl_child(rng, depth - 1);
+        let k = *rng.pick(&[1, 2, 3]);
+        return DataType::FixedSizeList(child_field(rng, "item", c), k);
+    }
+    loop {
+        let t = random_leaf(rng);
+        if t.primitive_width().is_some() || matches!(t, DataType::Boolean) {
+            return t;
         }
     }
 }
@@ -226,7 +245,7 @@ impl XSpec {
                 small: rng.chance(1, 2),
             });
         }
-        Self { cols }
+        Self { cols, no_nulls: false }
     }
     /// the vmon pool (ColTy) expressed as an XSpec
     pub fn from_colty(rng: &mut Rng, ncols: usize) -> Self {
@@ -249,7 +268,7 @@ impl XSpec {
                 small: rng.chance(1, 2),
             });
         }
-        Self { cols }
+        Self { cols, no_nulls: false }
     }
     pub fn schema(&self) -> SchemaRef {
         let mut f = vec![Field::new("id", DataType::Int64, false)];
@@ -279,38 +298,30 @@ impl XSpec {
     pub fn batch(&self, rng: &mut Rng, ids: &[i64]) -> RecordBatch {
         let n = ids.len();
         let mut arrays: Vec<ArrayRef> = vec![Arc::new(Int64Array::from(ids.to_vec()))];
+        NO_NULLS.with(|c| c.set(self.no_nulls));
         for c in &self.cols {
             arrays.push(gen_array(rng, &c.ty, n, c.nullable, c.null_eighths, c.small));
         }
+        NO_NULLS.with(|c| c.set(false));
         RecordBatch::try_new(self.schema(), arrays).expect("generated batch")
     }
-    /// Same schema, but no null anywhere (all fields non-nullable, recursively). Used for the
-    /// legacy format, which has no null support (docs/src/format/file/versioning.md).
-    pub fn without_nulls(&self) -> Self {
-        fn strip(dt: &DataType) -> DataType {
-            let f = |c: &Arc<Field>| Arc::new(Field::new(c.name(), strip(c.data_type()), false));
-            match dt {
-                DataType::List(c) => DataType::List(f(c)),
-                DataType::LargeList(c) => DataType::LargeList(f(c)),
-                DataType::FixedSizeList(c, k) => DataType::FixedSizeList(f(c), *k),
-                DataType::Struct(cs) => DataType::Struct(cs.iter().map(f).collect()),
-                DataType::Null => DataType::Int32,
-                other => other.clone(),
-            }
-        }
-        Self {
-            cols: self
-                .cols
-                .iter()
-                .map(|c| XCol {
-                    name: c.name.clone(),
-                    ty: strip(&c.ty),
-                    nullable: false,
-                    null_eighths: 0,
-                    small: c.small,
-                })
-                .collect(),
-        }
+    /// Legacy (0.1) format: no null support, one dictionary per file, empty string == null,
+    /// list items always read back nullable (docs/src/format/file/versioning.md: null support
+    /// arrived with 2.0; the format is deprecated). Flat non-nullable scalar columns and
+    /// fixed size lists only, no null data.
+    pub fn legacy(rng: &mut Rng, ncols: usize) -> Self {
+        let mut pool = ColTy::scalar_pool();
+        pool.extend([ColTy::Dec128(12, 3), ColTy::FslF32(4)]);
+        let cols = (0..ncols)
+            .map(|i| XCol {
+                name: format!("c{i}"),
+                ty: rng.pick(&pool).arrow(),
+                nullable: false,
+                null_eighths: 0,
+                small: rng.bool(),
+            })
+            .collect();
+        Self { cols, no_nulls: true }
     }
     pub fn has_dictionary(&self) -> bool {
         fn has(dt: &DataType) -> bool {
@@ -325,7 +336,21 @@ impl XSpec {
     }
 }
 
+thread_local! {
+    /// generator switch: produce no null anywhere (legacy format)
+    static NO_NULLS: std::cell::Cell<bool> = const { std::cell::Cell::new(false) };
+}
+
 fn gen_valid(rng: &mut Rng, n: usize, nullable: bool, eighths: u8) -> Vec<bool> {
+    if NO_NULLS.with(|c| c.get()) {
+        // keep the random stream aligned
+        for _ in 0..n {
+            if nullable {
+                rng.below(8);
+            }
+        }
+        return vec![true; n];
+    }
     (0..n)
         .map(|_| !(nullable && rng.below(8) < eighths as u64))
         .collect()
